@@ -18,6 +18,10 @@ EXPLANATION = (
     "function. Does not decide the column formulas of H/P/CNOT, row_sum/g_function, or symplecticity numerically.")
 
 
+TRF = "graphiq/backends/stabilizer/functions/transformation.py"
+LINF = "graphiq/backends/stabilizer/functions/linalg.py"
+
+
 def run(ctx: Ctx) -> None:
     tableau.rule_fresh_storage(ctx)
     from ..rules import memo as _memo
@@ -41,7 +45,8 @@ def run(ctx: Ctx) -> None:
     ctx.floor("own.tableau", 30)
     ctx.floor("num.rowcol", 3)
     ctx.floor("own.rowops", 8)
-    ctx.assume("hadamard_gate, phase_gate, cnot_gate, row_sum and g_function are trusted as named (bit formulas not decided)")
+    from ..rules import bitform as _bitform
+    _bitform.arm(ctx)
 
 
 def rule_wrappers(ctx: Ctx) -> None:
@@ -60,6 +65,17 @@ def rule_wrappers(ctx: Ctx) -> None:
 
 
 KNOCKOUTS = [
+    Knockout("prim-h-phase-xx", TRF, sub_nth("        tableau.table, tableau.table, qubit_position, n_qubits + qubit_position\n", "        tableau.table, tableau.table, qubit_position, qubit_position\n", 0), "prim.formula", "hadamard_gate"),
+    Knockout("prim-p-columns-swapped", TRF, sub_once("    tableau.table = add_columns(\n        tableau.table, qubit_position, n_qubits + qubit_position\n    )", "    tableau.table = add_columns(\n        tableau.table, n_qubits + qubit_position, qubit_position\n    )"), "prim.formula", "phase_gate"),
+    Knockout("prim-cnot-sign-term", TRF, sub_once("(x_target ^ z_ctrl ^ 1)", "(x_target ^ z_ctrl)"), "prim.formula", "cnot_gate"),
+    Knockout("prim-cnot-z-direction", TRF, sub_once("        tableau.table, n_qubits + target_qubit, n_qubits + ctrl_qubit\n", "        tableau.table, n_qubits + ctrl_qubit, n_qubits + target_qubit\n"), "prim.formula", "cnot_gate"),
+    Knockout("prim-g-yy-sign", LINF, sub_once("        return z2 - x2\n", "        return x2 - z2\n"), "prim.g-table", "g_function"),
+    Knockout("prim-g-x-branch", LINF, sub_once("        return z2 * (2 * x2 - 1)\n", "        return z2 * (1 - 2 * x2)\n"), "prim.g-table", "g_function"),
+    Knockout("prim-rowsum-drop-sign-of-added", LINF, sub_once("    phases += 2 * r_vector[row_to_add] + iphase_vector[row_to_add] + g_sum\n", "    phases += r_vector[row_to_add] + iphase_vector[row_to_add] + g_sum\n"), "prim.row-sum", "coefficient"),
+    Knockout("prim-rowsum-mod2", LINF, sub_once("    phases = phases % 4\n", "    phases = phases % 2\n"), "prim.row-sum", "mod 2"),
+    Knockout("prim-rowsum-g-args-mixed", LINF, sub_once("            z_matrix[row_to_add, j],\n            x_matrix[target_row, j],\n", "            x_matrix[target_row, j],\n            z_matrix[row_to_add, j],\n"), "prim.row-sum", "g_function receives"),
+    Knockout("prim-rowsum-range-short", LINF, sub_once("    for j in range(n_qubits):\n        g_sum = g_sum + g_function(", "    for j in range(n_qubits - 1):\n        g_sum = g_sum + g_function("), "prim.row-sum", "every qubit"),
+    Knockout("prim-addrows-into-first", LINF, sub_once("    input_matrix[target_row] = tmp.astype(int)\n", "    input_matrix[row_to_add] = tmp.astype(int)\n"), "prim.helper", "add_rows"),
     Knockout("insert-position-falsy-zero", CLIFF, sub_once("    n_qubits = tableau.n_qubits\n    assert new_position <= n_qubits\n", "    n_qubits = tableau.n_qubits\n    new_position = new_position or n_qubits\n    assert new_position <= n_qubits\n"), "falsy.zero", "truthiness of numeric parameter"),
     Knockout("stab-phase-asarray", tableau.TABLEAU, sub_once("            self._phase = np.copy(phase).astype(int)", "            self._phase = np.asarray(phase, dtype=int)"), "own.fresh-storage", "aliases its argument"),
     Knockout("clifford-phase-iphase-shared", tableau.CTABLEAU, sub_once("        self._iphase = np.zeros(2 * self.n_qubits).astype(int)\n", "        self._iphase = self._phase\n"), "own.fresh-storage", "aliases"),
